@@ -231,6 +231,33 @@ def _chk_c12(model, xs, cs, key):
     return out
 
 
+def _chk_pair(models, xs, cs, key):
+    """Largest difference between the analytic-direction outputs of two models that must denote the same distribution."""
+    import jax
+    import jax.numpy as jnp
+    from flowjax import bijections as _B
+    from flowjax.wrappers import unwrap
+
+    ma, mb = models
+    ua = unwrap(ma)
+    has_bnaf = any(isinstance(n, _B.BlockAutoregressiveNetwork) for n in jax.tree_util.tree_leaves(ua, is_leaf=lambda n: isinstance(n, _B.BlockAutoregressiveNetwork)))
+    lp_dir = (not has_bnaf) or isinstance(getattr(ua, "bijection", None), _B.Invert)
+    out = {}
+    if lp_dir:
+        try:
+            la, lb = ma.log_prob(xs, cs), mb.log_prob(xs, cs)
+            out["lp_diff"] = _maxdiff(la, lb)
+            out["lp_scale"] = jnp.max(jnp.where(jnp.isfinite(la), jnp.abs(la), 0.0), initial=0.0)
+        except NotImplementedError:
+            pass
+    if not lp_dir or "lp_diff" not in out:
+        c1 = None if cs is None else cs[0]
+        (a1, b1), (a2, b2) = ma.sample_and_log_prob(key, (2,), c1), mb.sample_and_log_prob(key, (2,), c1)
+        out["lp_diff"] = jnp.maximum(_maxdiff(a1, a2), _maxdiff(b1, b2))
+        out["lp_scale"] = jnp.maximum(jnp.max(jnp.abs(a1), initial=0.0), jnp.max(jnp.where(jnp.isfinite(b1), jnp.abs(b1), 0.0), initial=0.0))
+    return out
+
+
 # --------------------------------------------------------------------------- C11 / C09 walkers
 def _walk(node, nb, out, depth=0):
     """Collect (typed node, number of leading batch dims from enclosing Scan) from an UNWRAPPED model."""
@@ -783,7 +810,29 @@ def oracle_c12(world, result):
     # 2./3. state invariants --------------------------------------------------------------
     xs, cs = _probe_points(world, result)
     n_checked = n_vac = 0
+    # a wrapper is replaced by its VALUE: marking leaves non-trainable must not change what the model computes, and a
+    # stack of individually constructed layers under Scan must compute what the chain of those layers computes
+    value_ops = [op for f in result["freeze_applied"] for op in f.get("post_ops", []) if op.startswith("frozen_leaf_")]
+    pairs = []
+    if result["freeze_applied"] and not value_ops and not world.get("init_perturb"):
+        pairs.append(("c12.freezing_changes_values", "the model with leaves marked non-trainable", "the same model without the marks", m0, result["model_plain"]))
+    if world["model"].get("mode") == "scan" and world["model"]["kind"] in ("bnaf", "tri_spline") and not world.get("init_perturb"):
+        from sim import zoo
+
+        twin = zoo.build(dict(world["model"], mode="chain"))
+        pairs.append(("c12.stacked_wrappers_differ_from_individual", "Scan over the stacked layers", "Chain of the individually constructed layers", result["model_plain"], twin))
+    for clause, na, nb, ma, mb in pairs:
+        try:
+            rp = _run_check(clause, _chk_pair, (ma, mb), xs, cs, world["key_seed"])
+        except Exception as e:  # noqa: BLE001
+            V.append({"clause": "c12.method_raises", "detail": f"state0: evaluating {na} / {nb} raised {type(e).__name__}: {str(e)[:200]}"})
+            break
+        P[clause.split(".")[1] + "_checked"] = 1
+        if float(rp["lp_diff"]) > 1e-4 * (1.0 + float(rp["lp_scale"])):
+            V.append({"clause": clause, "detail": f"state0: {na} and {nb} differ by {float(rp['lp_diff'])} in log_prob / sample_and_log_prob (magnitude {float(rp['lp_scale'])})"})
     for label, model, fin in _states(world, result):
+        if V:
+            break
         if not fin:
             n_vac += 1
             continue
